@@ -500,6 +500,133 @@ def oracle_empty_bath(depth):
     return []
 
 
+# ------------------------------------------------ restart consistency oracle
+def restart_systems(rng):
+    """small systems with dyadic coefficients: (name, spec-like dict with float
+    scale 1/8 applied to the Gaussian-integer data)"""
+    fixed = [
+        {"name": "spin-boson-R-I", "n": 2, "scale": 8,
+         "H": [[[4, 0], [2, 0]], [[2, 0], [-4, 0]]],
+         "Qs": [[[[8, 0], [0, 0]], [[0, 0], [-8, 0]]]],
+         "exps": [{"t": "R", "ck": [2, 0], "vk": [4, 0], "ck2": None, "q": 0, "dim": None, "off": None},
+                  {"t": "R", "ck": [1, 0], "vk": [8, 0], "ck2": None, "q": 0, "dim": None, "off": None},
+                  {"t": "I", "ck": [1, -1], "vk": [4, 0], "ck2": None, "q": 0, "dim": None, "off": None}],
+         "depth": 2, "odd": False},
+        {"name": "fermionic-pair", "n": 2, "scale": 8,
+         "H": [[[4, 0], [0, 0]], [[0, 0], [-4, 0]]],
+         "Qs": [[[[0, 0], [8, 0]], [[0, 0], [0, 0]]]],
+         "exps": [{"t": "+", "ck": [2, 1], "vk": [4, 2], "ck2": None, "q": 0, "dim": 2, "off": 1},
+                  {"t": "-", "ck": [2, -1], "vk": [4, -2], "ck2": None, "q": 0, "dim": 2, "off": -1}],
+         "depth": 2, "odd": False},
+    ]
+    sp = gen_spec(rng, kind="bos")
+    sp["name"] = "random-bosonic"
+    sp["scale"] = 8
+    sp["depth"] = min(max(sp["depth"], 1), 2)
+    for e in sp["exps"]:
+        e["vk"] = [abs(e["vk"][0]) * 2 + 2, e["vk"][1]]      # decaying
+    return fixed + [sp]
+
+
+def restart_solver(sysd, method):
+    import qutip
+    from qutip.solver.heom.bofin_solvers import HEOMSolver
+    from qutip.solver.heom.bofin_baths import Bath, BathExponent
+    sc = float(sysd["scale"])
+    Qs = [qutip.Qobj(I.mat(q) / sc) for q in sysd["Qs"]]
+    exps = [BathExponent(e["t"], e["dim"], Qs[e["q"]], I.g2c(e["ck"]) / sc, I.g2c(e["vk"]) / sc,
+                         ck2=None if e["ck2"] is None else I.g2c(e["ck2"]) / sc,
+                         sigma_bar_k_offset=e["off"]) for e in sysd["exps"]]
+    H = qutip.Qobj(I.mat(sysd["H"]) / sc)
+    opts = {"store_ados": True, "store_states": True, "progress_bar": "",
+            "method": method, "atol": 1e-10, "rtol": 1e-8}
+    return HEOMSolver(H, Bath(exps), sysd["depth"], odd_parity=sysd["odd"], options=opts)
+
+
+RESTART_TOL = 1e-5      # validation threshold, solver tolerances are 1e-10 / 1e-8
+
+
+def oracle_restart(sysd, method, ntimes=5):
+    """restart consistency from EVERY stored auxiliary state.
+    exact:      ado_states[k].extract(0) == states[k] bitwise; ado_states[k]
+                and states[k] read after the run == deep copies taken by a
+                callback e_op when time k was reached
+    validation: solver.run(ado_states[k], tlist[k:]).states == full.states[k:]
+                within RESTART_TOL, for every k"""
+    import qutip
+    n = sysd["n"]
+    tlist = np.linspace(0, 1.0, ntimes)
+    solver = restart_solver(sysd, method)
+    rho0 = qutip.Qobj(np.diag([1.0] + [0.0] * (n - 1)).astype(complex))
+    snaps = []
+
+    def snap(t, ado_state):
+        snaps.append((np.array(ado_state._ado_state, copy=True),
+                      np.array(ado_state.rho.full(), copy=True)))
+        return 0.0
+    full = solver.run(rho0, tlist, e_ops=[snap])
+    bad = []
+    if len(full.ado_states) != ntimes or len(full.states) != ntimes or len(snaps) != ntimes:
+        return [("count", "run over %d times stored %d ADO states / %d states" % (
+            ntimes, len(full.ado_states), len(full.states)), {})]
+    for k in range(ntimes):
+        a = full.ado_states[k]
+        if not np.array_equal(a.extract(0).full(), full.states[k].full()):
+            bad.append(("extract0", "ado_states[%d].extract(0) differs from states[%d] "
+                        "(max abs diff %.3g)" % (k, k, float(np.abs(
+                            a.extract(0).full() - full.states[k].full()).max())), {"k": k}))
+            break
+    for k in range(ntimes):
+        if not np.array_equal(full.ado_states[k]._ado_state, snaps[k][0]):
+            bad.append(("alias", "ado_states[%d] read after the run differs from the deep "
+                        "copy taken when t[%d] was reached (max abs diff %.3g): stored "
+                        "auxiliary states are overwritten by later steps" % (
+                            k, k, float(np.abs(full.ado_states[k]._ado_state
+                                               - snaps[k][0]).max())), {"k": k}))
+            break
+        if not np.array_equal(full.states[k].full(), snaps[k][1]):
+            bad.append(("alias", "states[%d] read after the run differs from the copy "
+                        "taken at t[%d]" % (k, k), {"k": k}))
+            break
+    # validation (tolerance): restart from every stored auxiliary state
+    for k in range(ntimes - 1):
+        re = solver.run(full.ado_states[k], tlist[k:], e_ops=[lambda t, s: 0.0])
+        dev = max(float(np.abs(x.full() - y.full()).max())
+                  for x, y in zip(full.states[k:], re.states))
+        if not dev <= RESTART_TOL:
+            bad.append(("restart", "restart from ado_states[%d] over tlist[%d:] deviates "
+                        "from the one-go run by %.3g (> %g)" % (k, k, dev, RESTART_TOL),
+                        {"k": k, "deviation": dev}))
+            break
+    return bad
+
+
+def run_restart_oracles(ctx, rng):
+    from qutip.solver.heom.bofin_solvers import HEOMSolver
+    methods = list(HEOMSolver.avail_integrators().keys())
+    dist = ctx.cov.setdefault("input_distribution", {}).setdefault("restart", {})
+    for sysd in restart_systems(rng):
+        for method in methods:
+            try:
+                bad = oracle_restart(sysd, method)
+            except Exception as e:      # noqa
+                if method == "diag":
+                    # diagonalisation of a defective / non-constant generator may be
+                    # refused by the integrator itself: not a restart question
+                    ctx.notes.append("restart oracle: method diag skipped on %s (%s)"
+                                     % (sysd["name"], I.canon_err(e)))
+                    continue
+                bad = [("exception", "restart oracle raised %s: %s" % (I.canon_err(e), e), {})]
+            dist[method] = dist.get(method, 0) + 1
+            ctx.count_case(("restart", sysd["name"], method, json.dumps(sysd["exps"])))
+            for check, what, extra in bad:
+                ctx.violation("heom:restart", {"check": check, "method": method},
+                              "[method=%s, system=%s] %s" % (method, sysd["name"], what),
+                              dict({"kind": "restart", "system": sysd, "method": method,
+                                    "labelled": "validation (tolerance)" if check == "restart"
+                                    else "exact"}, **extra))
+
+
 # ------------------------------------------------------- labels correspondence
 def labels_impl(edims, depth):
     from qutip.solver.heom.bofin_solvers import HierarchyADOs
@@ -988,7 +1115,10 @@ def run(ctx):
         "it has >= 2 labels / merges at least one exponent / has >= 3 blocks / >= 2 blocks; "
         "distinct by full input.  Oracle cases: solver specs checked against the property "
         "itself (reference generator, trace, limits, permutation, split, merge, env API, "
-        "time dependence, packing, final_ado_state).")
+        "time dependence, packing, final_ado_state); restart oracle: 3 small dyadic "
+        "systems x every registered integration method, 5 output times, exact "
+        "extract(0)/snapshot equality for every k and (validation, tolerance 1e-5) restart "
+        "from every ado_states[k].")
     ctx.cov["trusted_base"] += [
         "Model/C19.v is hand-written; tied to states.py / bofin_solvers.py / "
         "environment.py / bofin_baths.py / csr.pyx by the exact correspondence run below",
@@ -1018,6 +1148,7 @@ def run(ctx):
         ctx.violation("corr:C19:model-eval", "coqc", "model evaluation failed",
                       {"log": str(e)[-3000:]}, found_input=False)
     run_fixed_oracles(ctx)
+    run_restart_oracles(ctx, rng)
     run_oracles(ctx, rng, 36 if q else 600, big=not q)
     ctx.cov["explanation"] = (
         "Theorems in Props/C19.v hold for every dims/depth/exponent list/ring; the model "
@@ -1036,6 +1167,8 @@ def replay(ctx, payload):
     bad = []
     if kind == "final_ado_state":
         bad = [(k, w) for k, w, _ in oracle_final_ado_state(tuple(d["options"]))]
+    elif kind == "restart":
+        bad = [(k, w) for k, w, _ in oracle_restart(d["system"], d["method"])]
     elif kind == "empty-bath":
         bad = [(k, w) for k, w, _ in oracle_empty_bath(d["depth"])]
     elif kind == "labels":
